@@ -430,6 +430,16 @@ def sweep(job):
                     if better < worse:
                         acc.bad('C05:%s:better-mark-fewer-points:%s' % (job['sys'], name), dict(jid, worse=(cs if timed else pcs) / 100.0, better=(pcs if timed else cs) / 100.0, form=name),
                                 'better mark scores %d, worse mark scores %d' % (better, worse))
+            # ... and across the input forms that carry the mark as electronically timed / measured (all but the hand-timed text)
+            ce = {n: v for n, v in cur.items() if isinstance(v, int) and 'hand' not in n}
+            pe = {n: v for n, v in pres.items() if isinstance(v, int) and 'hand' not in n}
+            if ce and pe:
+                (bn, bv), (wn, wv) = (min(pe.items(), key=lambda t: t[1]), max(ce.items(), key=lambda t: t[1])) if timed else \
+                                     (min(ce.items(), key=lambda t: t[1]), max(pe.items(), key=lambda t: t[1]))
+                if bv < wv and bn != wn:
+                    acc.bad('C05:%s:better-mark-fewer-points:across-forms' % job['sys'], dict(jid, worse=(cs if timed else pcs) / 100.0, better=(pcs if timed else cs) / 100.0,
+                                                                                             better_form=bn, worse_form=wn),
+                            'better mark as %s scores %d, worse mark as %s scores %d' % (bn, bv, wn, wv))
         prev = (cs, cur)
         if len(acc.samples) < 1 and cur and any(isinstance(v, int) and v > S['lo'] for v in cur.values()):
             acc.samples.append(dict(jid, mark=cs / 100.0, points=cur))
